@@ -73,8 +73,20 @@ def check_impl(ctx, cases):
             continue
         rel = 1e-12 if c.meta["pow2"] else 1e-9
         sh = outs_of(c, 2)
+        base_bars = [c.ops[i] for i, _ in a]
+        flowmax = 0.0
         for step, ((i, oa), (j, ob), (k, oc)) in enumerate(zip(a, b, sh)):
             va, vb, vc = f_of(oa), f_of(ob), f_of(oc)
+            if ind == "MFI":
+                # the property's conditioning rule for MFI (C07): claimed only when the largest single-bar flow is at most
+                # 1000 x the window's total flow
+                p_ = c.meta["params"][0]
+                w = base_bars[max(0, step - p_):step + 1]
+                tps = [(x_[5] + x_[3] + x_[4]) / 3.0 for x_ in w]
+                flowmax = max(flowmax, abs(tps[-1] * w[-1][6]))
+                tot = sum(abs(tps[q] * w[q][6]) for q in range(1, len(w)) if tps[q] != tps[q - 1])
+                if tot == 0.0 or flowmax / tot > 1000:
+                    continue
             if va is None or vb is None or any(x != x or abs(x) == float("inf") for x in va + vb):
                 continue
             ncmp += 1
